@@ -13,8 +13,12 @@ Variable env : Env.
 
 Definition vstate_of (s : Sim) (vid : id) : option VState := option_map v_state (find vid (vehicles s)).
 
+(* where the route of a new activity comes from: the road network's router, asked for a route from the vehicle's place *)
+Definition sourced (s : Sim) (vid : id) (nx : VState) : Prop :=
+  forall r, state_route nx = Some r -> exists a b v, r = e_route env a b /\ find vid (vehicles s) = Some v /\ p_geoid a = v_geoid v.
+
 Inductive MStep : Sim -> Sim -> Prop :=
-| M_transition s vid st nx s' : vstate_of s vid = Some st -> transition env s (vid, st) (vid, nx) = Ok s' -> MStep s s'
+| M_transition s vid st nx s' : vstate_of s vid = Some st -> transition env s (vid, st) (vid, nx) = Ok s' -> sourced s vid nx -> MStep s s'
 | M_perform s vid st s' : vstate_of s vid = Some st -> perform_update env vid st s = Ok s' -> MStep s s'
 | M_cancel s rid : MStep s (cancel_one env s rid)
 | M_admit s r : r_disp r = None -> MStep s (admit_request env s r)
@@ -165,10 +169,15 @@ Lemma step_vehicle_vonly s vid st : vonly vid s (step_vehicle env s (vid, st)).
 Proof. unfold step_vehicle. cbn [fst snd]. destruct (vs_update env vid st s) eqn:E; try apply vonly_refl. eapply vs_update_vonly; eauto. Qed.
 
 (* ---------- default_update of one vehicle in its current activity ---------- *)
+Lemma default_terminal_sourced vid st s nx : default_terminal_state env vid st s = Ok nx -> sourced s vid nx.
+Proof.
+  intros H r Hr. destruct st; cbn in H; repeat dmatch H; inv H; cbn in Hr; try discriminate Hr.
+  inv Hr. apply negb_false_iff in E1. apply Pos.eqb_eq in E1. exists (r_pos r0), (r_dest r0), v. split; [reflexivity|]. split; [first [exact E|reflexivity]|exact E1].
+Qed.
 Lemma vs_update_macro vid st s s' : vstate_of s vid = Some st -> vs_update env vid st s = Ok s' -> MStar s s'.
 Proof.
   intros Hst. unfold vs_update. intro H. repeat dmatch H.
-  - eapply MS_step; [eapply M_transition; eauto|]. apply MStar_one. eapply M_perform; eauto.
+  - eapply MS_step; [eapply M_transition; eauto using default_terminal_sourced|]. apply MStar_one. eapply M_perform; eauto.
     unfold vstate_of. match goal with X : find vid (vehicles _) = Some _ |- _ => rewrite X end. reflexivity.
   - apply MStar_one. eapply M_perform; eauto.
 Qed.
@@ -220,10 +229,11 @@ Qed.
 
 (* ---------- apply_instructions with one instruction per vehicle ---------- *)
 Lemma apply_instruction_spec s i p n : apply_instruction env s i = Ok (p, n) ->
-  fst p = instr_vid i /\ fst n = instr_vid i /\ vstate_of s (instr_vid i) = Some (snd p).
+  fst p = instr_vid i /\ fst n = instr_vid i /\ vstate_of s (instr_vid i) = Some (snd p) /\ sourced s (instr_vid i) (snd n).
 Proof.
-  unfold apply_instruction, vstate_of. destruct (find (instr_vid i) (vehicles s)) as [v|] eqn:F; [|discriminate].
-  destruct i; cbn in *; intro H; repeat dmatch H; inv H; cbn; auto.
+  unfold apply_instruction, vstate_of, sourced. destruct (find (instr_vid i) (vehicles s)) as [v|] eqn:F; [|discriminate].
+  destruct i; cbn in *; intro H; repeat dmatch H; inv H; cbn; repeat split; auto; intros rt0 Hr; try discriminate Hr; inv Hr;
+    eexists _, _, v; repeat split; auto.
 Qed.
 Definition phase1_list (s : Sim) (is : list Instr) : list (Instr * (VS * VS)) :=
   flat_map (fun i => match apply_instruction env s i with Ok r => [(i, r)] | _ => [] end) is.
@@ -250,23 +260,25 @@ Proof.
   unfold apply_phase2. cbn [fst snd]. destruct (transition env s (vid, st) (vid, nx)) eqn:E; try apply vonly_refl.
   eapply vonly_trans; [eapply transition_vonly; eauto|apply vonly_same; reflexivity].
 Qed.
-Lemma apply_phase2_macro s i vid st nx : vstate_of s vid = Some st -> MStar s (apply_phase2 env s (i, ((vid, st), (vid, nx)))).
+Lemma apply_phase2_macro s i vid st nx : vstate_of s vid = Some st -> sourced s vid nx -> MStar s (apply_phase2 env s (i, ((vid, st), (vid, nx)))).
 Proof.
-  intro Hst. unfold apply_phase2. cbn [fst snd]. destruct (transition env s (vid, st) (vid, nx)) eqn:E; try constructor.
+  intros Hst Hsrc. unfold apply_phase2. cbn [fst snd]. destruct (transition env s (vid, st) (vid, nx)) eqn:E; try constructor.
   eapply MS_step; [eapply M_transition; eauto|]. apply MStar_one, M_ghost; [unfold same_entities; cbn; repeat split|reflexivity].
 Qed.
 Lemma phase2_macro (l : list (Instr * (VS * VS))) : NoDup (map (fun e => instr_vid (fst e)) l) -> forall s, vkeys s ->
   (forall e, In e l -> fst (fst (snd e)) = instr_vid (fst e) /\ fst (snd (snd e)) = instr_vid (fst e) /\
-                       vstate_of s (instr_vid (fst e)) = Some (snd (fst (snd e)))) ->
+                       vstate_of s (instr_vid (fst e)) = Some (snd (fst (snd e))) /\ sourced s (instr_vid (fst e)) (snd (snd (snd e)))) ->
   MStar s (fold_left (apply_phase2 env) l s).
 Proof.
   induction l as [|[i [[pv pst] [nv nst]]] l IH]; intros Nd s K Hl; cbn [fold_left]; [constructor|].
   inversion Nd as [|? ? Nin Nd']; subst. cbn in Nin.
-  destruct (Hl _ (or_introl eq_refl)) as (E1 & E2 & E3). cbn in E1, E2, E3. subst pv nv.
+  destruct (Hl _ (or_introl eq_refl)) as (E1 & E2 & E3 & E4). cbn in E1, E2, E3, E4. subst pv nv.
   destruct (apply_phase2_vonly s i (instr_vid i) pst nst K) as [K1 Oth].
-  eapply MStar_trans; [apply apply_phase2_macro; exact E3|].
-  apply IH; auto. intros e Ie. destruct (Hl e (or_intror Ie)) as (A & B & C). split; [exact A|]. split; [exact B|].
-  unfold vstate_of. rewrite Oth; [exact C|]. intro X. apply Nin. apply in_map_iff. exists e. auto.
+  eapply MStar_trans; [apply apply_phase2_macro; [exact E3|exact E4]|].
+  apply IH; auto. intros e Ie. destruct (Hl e (or_intror Ie)) as (A & B & C & D). split; [exact A|]. split; [exact B|].
+  assert (Ne : instr_vid (fst e) <> instr_vid i) by (intro X; apply Nin; apply in_map_iff; exists e; auto).
+  split; [unfold vstate_of; rewrite Oth; [exact C|exact Ne]|].
+  intros r Hr. destruct (D r Hr) as (a & b & v & Er & Fv & Eg). exists a, b, v. rewrite Oth by exact Ne. auto.
 Qed.
 Lemma apply_instructions_macro s is : vkeys s -> NoDup (map instr_vid is) -> MStar s (apply_instructions env s is).
 Proof.
